@@ -490,6 +490,18 @@ impl<'a> Gen<'a> {
                 let cols = vec![(names[0].to_string(), K::I), (names[1].to_string(), K::T)];
                 (From_::Values(rows, alias.clone()), Rel { name: alias, cols, key: vec![] })
             }
+            2 if (self.cfg.is(Dialect::Sqlite) || self.cfg.is(Dialect::Postgres)) && self.rng.coin() => {
+                // a table function: json_each over a literal array on SQLite (runs on the engine), generate_series
+                // on Postgres (text level)
+                let alias = self.fresh("f");
+                if self.cfg.is(Dialect::Sqlite) {
+                    let arr = *self.rng.pick(&["[1,2,3]", "[2,2,5,0]", "[]", "[7]"]);
+                    (From_::Func("json_each".into(), vec![X::Text(arr.into())], alias.clone()), Rel { name: alias, cols: vec![("key".into(), K::I), ("value".into(), K::I)], key: vec!["key".into()] })
+                } else {
+                    let hi = self.int_val();
+                    (From_::Func("generate_series".into(), vec![X::Int(1), hi], alias.clone()), Rel { name: alias.clone(), cols: vec![(alias, K::I)], key: vec![] })
+                }
+            }
             _ => {
                 let t = self.pick_base();
                 let rel = self.alias_rel(&t);
@@ -1214,6 +1226,9 @@ pub fn clause_kinds(s: &Stmt) -> Vec<&'static str> {
         }
         if q.from.iter().any(|f| matches!(f, From_::Values(..))) || q.joins.iter().any(|j| matches!(j.from, From_::Values(..))) {
             v.push("values-list");
+        }
+        if q.from.iter().any(|f| matches!(f, From_::Func(..))) || q.joins.iter().any(|j| matches!(j.from, From_::Func(..))) {
+            v.push("table-function");
         }
         if !q.wheres.is_empty() {
             v.push("where");
